@@ -143,9 +143,9 @@ Section Effect.
   Theorem external_effect t tgt ev s0 s1 :
     exec_external eng pr m t tgt ev s0 = (s1, None) ->
     let d := find_domain m (t_src t) tgt in
-    let xs := rev (sort_by (lt_depth_id m) (exit_set_h m (s_cfg s0) (s_hist s0) d tgt)) in
+    let xs := rev (sort_by (lt_depth_id m) (ext_exit_set m (s_cfg s0) (s_hist s0) d tgt)) in
     let hist := is_history m tgt in
-    let path := if hist then [] else path_to m tgt d in
+    let path := if hist then [] else ext_path m tgt d in
     let cp := if hist then combined_path m d (resolve_history m (s_hist s0) tgt) else [] in
     s_cfg s1 = add_all (entered (S (size m)) m cp) (add_all (entered (S (size m)) m path) (remove_all xs (s_cfg s0))).
   Proof.
